@@ -121,6 +121,11 @@ def step (d : DState) (t : List String) : DState × List String :=
       if d.forgedB.contains b then (d, ["P skip forged"]) else
       exec { d with forgedC := d.forgedC.erase c } (.curInto c b off len) [] [c]
     | _, _, _, _ => bad
+  | ["cur_sub", dst, src, off, len] => match C dst, C src, parseSize? off, parseSize? len with
+    | some dst, some src, some off, some len =>
+      if stale d src then (d, ["P skip stale"]) else
+      exec { d with forgedC := d.forgedC.erase dst } (.curSub dst src off len) [] [dst]
+    | _, _, _, _ => bad
   | ["cur_from_buf", c, b] => match C c, B b with
     | some c, some b =>
       if d.forgedB.contains b then (d, ["P skip forged"]) else
